@@ -308,7 +308,10 @@ impl ProvisionSharedState {
                 )
             })?;
         rx.await.map_err(|e| {
-            Error::RecvError("ProvisionAction::SetProvisionFinishedIfAllReady".to_string(), e)
+            Error::RecvError(
+                "ProvisionAction::SetProvisionFinishedIfAllReady".to_string(),
+                e,
+            )
         })
     }
 
